@@ -3,6 +3,7 @@ package cose
 import (
 	"errors"
 	"fmt"
+	"math"
 	"math/big"
 	"strings"
 	"unicode/utf8"
@@ -753,6 +754,9 @@ func normalizeLabel(label any) (any, bool) {
 	case int64:
 		label = int64(v)
 	case uint:
+		if uint64(v) > math.MaxInt64 {
+			return nil, false // not an int64: the decoder refuses it
+		}
 		label = int64(v)
 	case uint8:
 		label = int64(v)
@@ -761,6 +765,9 @@ func normalizeLabel(label any) (any, bool) {
 	case uint32:
 		label = int64(v)
 	case uint64:
+		if v > math.MaxInt64 {
+			return nil, false // not an int64: the decoder refuses it
+		}
 		label = int64(v)
 	case string:
 		// no conversion
